@@ -430,7 +430,9 @@ def bfs(kind, depth, first_actions, part, embeddings=1, embed_all=False):
                         part._alone = None
                         k = step(w, action, part, kind, path)
                         if k is not None and (d == 0 or (embed_all and d <= 1)):
-                            for how in EMBEDDINGS[:embeddings]:
+                            # every embedding at the root; below it (thorough tier) the two that put a
+                            # committing item next to the action
+                            for how in (EMBEDDINGS[:embeddings] if d == 0 else EMBEDDINGS[:2]):
                                 with W.World(db_from=dbfile) as w2:
                                     embed(w2, action, part, kind, path, how)
                         if k is not None and k not in seen:
